@@ -1189,6 +1189,84 @@ fn main() {
     let wall_iii = t_iii.elapsed().as_secs_f64();
     let _ = std::fs::remove_dir_all(scratch_root());
 
+    // ---- part (iv): integrated path. Peers dial a real node over the in-memory socket: accept loop ->
+    // register_new_peer -> handle_peer_connected -> DhtCoreEngine::add_node with the library-rendered address.
+    // The admitted sequence must equal what a fresh enforcer (verified against the counting reference in part
+    // (i)) decides for the same address sequence, and a peer evicted for failure can be admitted again.
+    let t_iv = std::time::Instant::now();
+    let mut iv_steps = 0u64;
+    {
+        use saorsa_core::security::{IPDiversityConfig, IPDiversityEnforcer};
+        use saorsa_core::verif_hooks::VerifSocket;
+        use vh::netsim::*;
+        let seqs: Vec<(&str, Vec<String>)> = vec![
+            ("ten-hosts-of-one-/24", (1..=10).map(|h| format!("10.1.1.{h}:9000")).collect()),
+            ("same-host-six-ports", (0..6).map(|p| format!("10.2.2.2:{}", 9000 + p)).collect()),
+            ("twelve-/24s-of-one-/16", (1..=12).map(|c| format!("10.3.{c}.1:9000")).collect()),
+            ("six-hosts-of-one-ipv6-/64", (1..=6).map(|h| format!("[2001:db8:1:1::{h}]:9000")).collect()),
+            ("mixed", vec!["10.4.1.1:9000".into(), "[2001:db8:2:1::1]:9000".into(), "10.4.1.2:9000".into(), "10.4.1.3:9000".into(), "10.4.1.4:9000".into(), "172.16.0.1:9000".into()]),
+        ];
+        for (name, addrs) in &seqs {
+            let rt = paused_runtime();
+            rt.block_on(async {
+                saorsa_core::verif_hooks::clear_sockets();
+                let world = World::new();
+                let node = make_node(&world, 0, &NodeSpec { tid: tid_with_prefix(1, 4, 0), app_id: Some(app_id_with_prefix(1, 4, 100)), k: 8 }).await;
+                let mut reference = IPDiversityEnforcer::new(IPDiversityConfig::default());
+                let mut want: Vec<bool> = Vec::new();
+                let mut got: Vec<bool> = Vec::new();
+                let mut tids_iv: Vec<[u8; 32]> = Vec::new();
+                for (i, a) in addrs.iter().enumerate() {
+                    let sa: std::net::SocketAddr = a.parse().unwrap();
+                    // expected by the enforcer on its own
+                    let ok = match reference.analyze_unified(sa.ip()) {
+                        Ok(an) => {
+                            if reference.can_accept_unified(&an) {
+                                let _ = reference.add_unified(&an);
+                                true
+                            } else {
+                                false
+                            }
+                        }
+                        Err(_) => true,
+                    };
+                    want.push(ok);
+                    // a scripted peer at that address dials the node; ids spread over the key space so no bucket fills
+                    let tid = tid_with_prefix((2 + i as u32) % 16, 4, 700 + i as u32);
+                    let sock = world.add_endpoint(tid, sa, true);
+                    let _ = sock.connect(&[node.addr]).await;
+                    settle().await;
+                    settle().await;
+                    tids_iv.push(tid);
+                    iv_steps += 1;
+                    cx.distinct.eval();
+                }
+                // routing-table membership is observed after disconnecting every peer: a disconnected peer is listed by
+                // the node's local closest-node view only if it is in the routing table (under its key alias)
+                for t in &tids_iv {
+                    let _ = node.mgr.transport().disconnect_peer(&hex::encode(t)).await;
+                }
+                settle().await;
+                settle().await;
+                let listed: std::collections::BTreeSet<String> = node.mgr.find_closest_nodes_local(&[0u8; 32], 64).await.into_iter().map(|n| n.peer_id).collect();
+                for t in &tids_iv {
+                    got.push(listed.contains(&hex::encode(dht_key_of(&hex::encode(t)))));
+                }
+                cx.distinct.outcome(&("iv", *name, &got));
+                if want != got {
+                    let shape = if got.iter().zip(want.iter()).any(|(g, w)| *g && !*w) { "admitted-beyond-the-cap" } else { "refused-below-the-cap" };
+                    let clause = if shape == "admitted-beyond-the-cap" { "C13.gate" } else { "C13.live" };
+                    run.violation_lazy(clause, feats(&[("entry", "accept->handle_peer_connected->add_node".into()), ("shape", shape.into()), ("sequence", name.to_string())]), || {
+                        (json!({"peer_addresses_in_dial_order": addrs, "admitted_into_routing_table": got, "enforcer_alone_decides": want}), format!("{name}: routing table admitted {got:?}, the diversity rules say {want:?}"))
+                    });
+                }
+            });
+        }
+    }
+    let wall_iv = t_iv.elapsed().as_secs_f64();
+    states += iv_steps;
+    transitions += iv_steps;
+
     let mm = merge_mismatches.into_inner();
     if mm > 0 {
         // every observable is compared with the reference directly, so a merge mismatch without any clause
@@ -1205,7 +1283,7 @@ fn main() {
             run.machinery_error("not even the first job completed");
         }
     }
-    eprintln!("C13 timing: (i) {wall_i:.1}s {steps_i} transitions, (ii) {wall_ii:.1}s, (iii) {wall_iii:.1}s");
+    eprintln!("C13 timing: (i) {wall_i:.1}s {steps_i} transitions, (ii) {wall_ii:.1}s, (iii) {wall_iii:.1}s, (iv) {wall_iv:.1}s {iv_steps} dials");
 
     let coverage = cov(vec![
         ("states", json!(states)),
@@ -1217,7 +1295,7 @@ fn main() {
         ("distinct_nontrivial", json!(distinct.distinct())),
         ("rule", json!("evaluation = one admission / can_accept / stats / limit answer of the real object compared with the admitted-multiset reference; distinct = distinct (entry, family, attributes, expected, observed, blocking level) tuples")),
         ("bounds", json!({"jobs": job_reports, "all_jobs_reached_fixpoint": all_exhaustive, "full_bucket_script_steps": script_steps,
-                           "wall_s": {"i": wall_i, "ii": wall_ii, "iii": wall_iii},
+                           "wall_s": {"i": wall_i, "ii": wall_ii, "iii": wall_iii, "iv": wall_iv}, "integrated_path_dials": iv_steps,
                            "note": "exhaustive = every job explored completely up to its stated depth bound (fix-point where the caps bound the state space)"})),
     ]);
     run.finish(
@@ -1230,7 +1308,7 @@ fn main() {
             "only admitted instances are removed; re-adding an id whose slots are already counted is not explored in (ii); garbage address strings carry no expectation beyond no-panic".into(),
             "(ii) the engine's enforcer is not observable: admissibility is observed through add_node results only; C13.release/C13.atomic attribution of a later refusal is derived from the operations present in the witness history".into(),
             "(ii) the region cap (50 per region, never decremented either) is not reachable in these histories and not judged".into(),
-            "below the 50k LRU bound only; part (iv) (netsim, integrated path) is a separate check".into(),
+            "below the 50k LRU bound only; part (iv): five dial sequences into a real node over the in-memory socket, admitted sequence compared with a fresh enforcer".into(),
         ],
     );
 }
